@@ -11,6 +11,7 @@ import (
 	"net/url"
 	"os"
 	"path/filepath"
+	"regexp"
 	"strings"
 
 	"github.com/ada-url/goada"
@@ -29,9 +30,9 @@ import (
 // implementation holds (parsed scheme/host, URL.String(), the request's own URL).
 //
 // Input: one line of JSON
-//   {"c":"k12","ih":[..],"is":[..],"eh":[..],"es":[..],"re":[..],"w":[..],"t":{"u":raw,"s":status,"k":[..]}}
+//   {"c":"k12","ih":[..],"is":[..],"eh":[..],"es":[..],"re":[..],"rf":[[..],..],"w":[..],"t":{"u":raw,"s":status,"k":[..]}}
 // ih/is/eh/es = --include-host/--include-string/--exclude-host/--exclude-string, re = lines of the
-// exclusion file, w = indices (pre-order, among the nodes at the working depth) of URLs put into the
+// first exclusion file, rf = the lines of further exclusion files (--exclusion-file repeated), w = indices (pre-order, among the nodes at the working depth) of URLs put into the
 // seen-store beforehand by a warm-up run of preprocess on a copy of the tree.
 
 type scNode struct {
@@ -46,7 +47,8 @@ type scInput struct {
 	IS []string `json:"is,omitempty"`
 	EH []string `json:"eh,omitempty"`
 	ES []string `json:"es,omitempty"`
-	RE []string `json:"re,omitempty"`
+	RE []string   `json:"re,omitempty"` // lines of one exclusion file (the first)
+	RF [][]string `json:"rf,omitempty"` // further exclusion files: --exclusion-file given several times
 	W  []int    `json:"w,omitempty"`
 	T  *scNode  `json:"t"`
 }
@@ -215,9 +217,21 @@ func (t *scTree) coqTree(in *scIntern, it *models.Item) string {
 		coqBool(it.GetSeedVia() != ""), it.GetURL().GetHops(), it.GetURL().GetRedirects(), coqList(kids))
 }
 
+// the lines of all exclusion files of the case, compiled by the driver itself (Go's regexp is
+// the oracle on both sides; the implementation's compiled list is only compared, never used here)
+var scopeOwnRegexes []*regexp.Regexp
+
+func (in *scInput) files() [][]string {
+	var fs [][]string
+	if len(in.RE) > 0 {
+		fs = append(fs, in.RE)
+	}
+	return append(fs, in.RF...)
+}
+
 func regexBits(text string) string {
 	var bits []string
-	for _, re := range config.Get().ExclusionRegexes {
+	for _, re := range scopeOwnRegexes {
 		bits = append(bits, coqBool(re.MatchString(text)))
 	}
 	return coqList(bits)
@@ -235,12 +249,24 @@ func installScopeConfig(in *scInput) error {
 	c.ExcludeString = append([]string(nil), in.ES...)
 	c.ExclusionRegexes = nil
 	c.ExclusionFile = nil
-	if len(in.RE) > 0 {
-		f := filepath.Join(scopeDir, "exclusions.txt")
-		if err := os.WriteFile(f, []byte(strings.Join(in.RE, "\n")+"\n"), 0o644); err != nil {
+	scopeOwnRegexes = nil
+	for i, lines := range in.files() {
+		f := filepath.Join(scopeDir, fmt.Sprintf("exclusions%d.txt", i))
+		content := ""
+		if len(lines) > 0 {
+			content = strings.Join(lines, "\n") + "\n"
+		}
+		if err := os.WriteFile(f, []byte(content), 0o644); err != nil {
 			return err
 		}
-		c.ExclusionFile = []string{f}
+		c.ExclusionFile = append(c.ExclusionFile, f)
+		for _, l := range lines {
+			re, err := regexp.Compile(l)
+			if err != nil {
+				return err
+			}
+			scopeOwnRegexes = append(scopeOwnRegexes, re)
+		}
 	}
 	return config.GenerateCrawlConfig()
 }
@@ -303,6 +329,17 @@ func execScope(input string) Result {
 		tags = append(tags, "bad-input")
 		t, err = buildTree(in.T, nil)
 		must(err)
+	}
+	for _, f := range in.files() {
+		for _, l := range f {
+			if _, err := regexp.Compile(l); err != nil || strings.ContainsAny(l, "\r\n") {
+				in = scInput{}
+				json.Unmarshal([]byte(scTrivial), &in)
+				tags = append(tags, "bad-input")
+				t, err = buildTree(in.T, nil)
+				must(err)
+			}
+		}
 	}
 	must(installScopeConfig(&in))
 	freshSeenStore()
@@ -418,11 +455,23 @@ func execScope(input string) Result {
 	treeOut := t.coqTree(intern, t.seed)
 
 	cfg := fmt.Sprintf("(OC %s %s %s %s)", coqStrs(in.IH), coqStrs(in.IS), coqStrs(in.EH), coqStrs(in.ES))
-	term := fmt.Sprintf("SC %s %s\n (%s)\n %s %s %s %s\n (%s)\n %s", cfg, coqStrs(config.Get().ExcludeHosts), treeIn,
+	var files, effRe []string
+	for _, f := range in.files() {
+		files = append(files, coqStrs(f))
+	}
+	for _, re := range config.Get().ExclusionRegexes {
+		effRe = append(effRe, re.String())
+	}
+	nfiles, nlines := len(in.files()), len(scopeOwnRegexes)
+	term := fmt.Sprintf("SC %s %s %s %s\n (%s)\n %s %s %s %s\n (%s)\n %s", cfg, coqList(files), coqStrs(config.Get().ExcludeHosts), coqStrs(effRe), treeIn,
 		coqList(nvs), coqList(seen), coqList(reqfail), coqBool(panicked != ""), treeOut, coqList(nodes))
 
 	if in.C != "" {
 		tags = append(tags, "cfg:"+in.C)
+	}
+	tags = append(tags, fmt.Sprintf("exclusion-files:%d", nfiles))
+	if nfiles >= 2 && nlines > len(in.files()[nfiles-1]) {
+		tags = append(tags, "exclusion-files:regex-outside-last-file")
 	}
 	tags = append(tags, fmt.Sprintf("depth:%d", depth), fmt.Sprintf("work-nodes:%d", bucket(len(t.work))))
 	for k := range kinds {
@@ -476,6 +525,22 @@ func shrinkScope(input string) []string {
 			*f = save
 		}
 	}
+	for i := range in.RF {
+		save := in.RF
+		in.RF = append(append([][]string(nil), save[:i]...), save[i+1:]...)
+		v := in
+		v.W = nil
+		emit(v)
+		in.RF = save
+		for j := range save[i] {
+			nf := append(append([]string(nil), save[i][:j]...), save[i][j+1:]...)
+			in.RF = append(append(append([][]string(nil), save[:i]...), nf), save[i+1:]...)
+			v := in
+			v.W = nil
+			emit(v)
+			in.RF = save
+		}
+	}
 	// drop the i-th leaf of the deepest level (only when its parent keeps another child)
 	D := specDepth(in.T)
 	if D > 0 {
@@ -516,7 +581,7 @@ func init() {
 		Footer:   stdFooter,
 		Rule: "one case = one item tree (seed alone / redirect chains / assets, depth 0-3, consistent and a few inconsistent parents) whose nodes at the working depth carry raw URLs from a grammar " +
 			"(absolute, scheme-relative, path-absolute, path-relative, query/fragment-only, scheme-less, other schemes; hosts: plain, with port, userinfo, IDN/punycode, upper-case, percent-encoded, " +
-			"hosts containing the excluded strings, localhost/127.0.0.1 in several spellings, dot-less, IPv6; quotes, white space, backslashes) under one of 34 fixed filter configurations or a random one; " +
+			"hosts containing the excluded strings, localhost/127.0.0.1 in several spellings, dot-less, IPv6; quotes, white space, backslashes) under one of 40 fixed filter configurations or a random one, the exclusion regexes spread over 0-3 real --exclusion-file files (empty files, duplicates across files); " +
 			"distinct by input text; non-trivial when at least one node got a request and at least one was rejected (normalisation or filters)",
 		Setup:    setupScope,
 		Gen:      genScope,
